@@ -375,9 +375,122 @@ func runC18(c *an.Ctx) {
 		c.Check(ok, "C18.args", "(*Arguments).ParseInto", f.Pos(), "ParseInto visits every argument position through Get and rejects too few pointers", why)
 	}
 	if f := c.Fn("C18.args", "(*Arguments).RequireNumOfArguments"); f != nil {
-		src := strings.ReplaceAll(an.StmtStr(f.Body), " ", "")
-		ok := strings.Contains(src, "num:=a.NumOfArguments()") && strings.Contains(src, "min>=0&&num<min") && strings.Contains(src, "max>=0&&num>max") && len(p.CallsIn(f, "(*jet.Arguments).Panicf")) == 2
-		c.Check(ok, "C18.args", "(*Arguments).RequireNumOfArguments", f.Pos(), "both bounds are compared with NumOfArguments()", "RequireNumOfArguments does not compare NumOfArguments() with both the minimum and the maximum")
+		// for each bound parameter P (min, max): no normal return while `P >= 0` and `num beyond P` can both
+		// hold, num being NumOfArguments().  The form of the test (two ifs, one if with ||, nested ifs) is free.
+		finfo := f.Info()
+		isNum := func(e ast.Expr) bool {
+			e = an.Unparen(e)
+			if call, ok := e.(*ast.CallExpr); ok {
+				return an.IsCallTo(finfo, call, "(*jet.Arguments).NumOfArguments")
+			}
+			if id, ok := e.(*ast.Ident); ok {
+				for _, d := range an.LocalDefs(f, an.ObjOf(finfo, id)) {
+					if call, ok := an.Unparen(d).(*ast.CallExpr); ok && d != nil && an.IsCallTo(finfo, call, "(*jet.Arguments).NumOfArguments") {
+						return true
+					}
+				}
+			}
+			return false
+		}
+		type bound struct {
+			sign, cmp ast.Expr // P vs 0, num vs P
+			both      ast.Expr // the && joining them, when there is one
+		}
+		bounds := map[types.Object]*bound{}
+		paramOf := func(e ast.Expr) types.Object {
+			if id, ok := an.Unparen(e).(*ast.Ident); ok {
+				o := an.ObjOf(finfo, id)
+				if i, isParam := an.IsParam(f, o); isParam && i >= 1 {
+					return o
+				}
+			}
+			return nil
+		}
+		classify := func(b *ast.BinaryExpr) (types.Object, string) {
+			switch b.Op {
+			case token.LSS, token.GTR, token.LEQ, token.GEQ, token.EQL, token.NEQ:
+			default:
+				return nil, ""
+			}
+			for _, pr := range [][2]ast.Expr{{b.X, b.Y}, {b.Y, b.X}} {
+				if o := paramOf(pr[0]); o != nil {
+					if tv, ok := finfo.Types[pr[1]]; ok && tv.Value != nil {
+						return o, "sign"
+					}
+					if isNum(pr[1]) {
+						return o, "cmp"
+					}
+				}
+			}
+			return nil, ""
+		}
+		an.InspectOwn(f, func(n ast.Node) bool {
+			b, ok := n.(*ast.BinaryExpr)
+			if !ok {
+				return true
+			}
+			if o, kind := classify(b); o != nil {
+				if bounds[o] == nil {
+					bounds[o] = &bound{}
+				}
+				if kind == "sign" {
+					bounds[o].sign = b
+				} else {
+					bounds[o].cmp = b
+				}
+			}
+			if b.Op == token.LAND {
+				lx, lok := an.Unparen(b.X).(*ast.BinaryExpr)
+				rx, rok := an.Unparen(b.Y).(*ast.BinaryExpr)
+				if lok && rok {
+					lo, lk := classify(lx)
+					ro, rk := classify(rx)
+					if lo != nil && lo == ro && lk != rk {
+						if bounds[lo] == nil {
+							bounds[lo] = &bound{}
+						}
+						bounds[lo].both = b
+					}
+				}
+			}
+			return true
+		})
+		x := p.NewExplorer(f, an.Hooks{})
+		x.Run(nil)
+		c.States += x.Visited
+		ok, why := len(bounds) == 2, "RequireNumOfArguments does not compare NumOfArguments() with both the minimum and the maximum"
+		nRet := 0
+		for _, ex := range x.Exits {
+			if ex.Kind != an.ExitReturn {
+				continue
+			}
+			nRet++
+			for o, bd := range bounds {
+				if bd.sign == nil || bd.cmp == nil {
+					ok, why = false, "the bound "+o.Name()+" is not both tested for being set (>= 0) and compared with NumOfArguments()"
+					continue
+				}
+				excluded := false
+				if v, known := x.Truth(bd.sign, ex.State); known && !v {
+					excluded = true
+				}
+				if v, known := x.Truth(bd.cmp, ex.State); known && !v {
+					excluded = true
+				}
+				if bd.both != nil {
+					if v, known := x.Truth(bd.both, ex.State); known && !v {
+						excluded = true
+					}
+				}
+				if !excluded {
+					ok, why = false, "RequireNumOfArguments can return normally although the argument count may violate the bound "+o.Name()
+				}
+			}
+		}
+		if nRet == 0 {
+			ok, why = false, "RequireNumOfArguments never returns"
+		}
+		c.Check(ok, "C18.args", "(*Arguments).RequireNumOfArguments", f.Pos(), "both bounds are compared with NumOfArguments() and a violated bound never lets the function return", why)
 	}
 	// the accessors agree with evaluateArgs (same rules as C14.shift)
 	const canon = "!HasPipeSlot && piped!=nil"
